@@ -27,55 +27,32 @@ ResultPath == IOEnv.VERIF_RESULT
 When(c, s) == IF c THEN <<s>> ELSE <<>>
 
 JudgeKeygen(e) ==
-  LET ks == KeySeeds(e.seed)
-      s1 == S1(ks.rhoPrime)
-      s2 == S2(ks.rhoPrime)
-      s1hat == [j \in 1..LL |-> NTT(s1[j])]
-      badPos == {p \in {e.positions[x] : x \in 1..Len(e.positions)} :
-                   LET i == p[1] k == p[2]
-                       t == TAt(ks.rho, s1hat, s2, i, k)
-                       r == Power2RoundDef(t)
-                   IN PkT1(e.pk, i)[k + 1] # r.hi \/ SkT0(e.sk, i)[k + 1] # r.lo}
+  LET kg == KeyGen(e.seed)
   IN When(Len(e.pk) # 2592 \/ Len(e.sk) # 4864, "key sizes")
-     \o When(PkRho(e.pk) # ks.rho \/ SkRho(e.sk) # ks.rho, "rho is not bytes 0..31 of SHAKE256(SHAKE256(seed)[0:32])")
-     \o When(SkKey(e.sk) # ks.key, "key is not bytes 96..127 of the seed expansion")
-     \o When(SkTr(e.sk) # Hash(SHAKE256, e.pk, 32), "tr is not SHAKE256(pk)[0:32]")
-     \o When(\E i \in 0..(LL - 1) : SkS1(e.sk, i) # s1[i + 1], "s1 is not the eta-sampler output for nonces 0..L-1")
-     \o When(\E i \in 0..(KK - 1) : SkS2(e.sk, i) # s2[i + 1], "s2 is not the eta-sampler output for nonces L..L+K-1")
-     \o When(badPos # {}, "t1 / t0 are not Power2Round(A s1 + s2) at a checked coefficient")
+     \o When(e.pk # kg.pk, "public key is not KeyGen_spec(SHAKE256(seed)[0:32]).pk  (rho || pack10(t1), t = A s1 + s2)")
+     \o When(e.sk # kg.sk, "secret key is not KeyGen_spec(..).sk  (rho || key || tr || eta(s1) || eta(s2) || pack13(t0))")
 
+\* the whole signing algorithm: every iteration the library went through is recomputed from (sk, message)
+\* - y, w = A y, w1, the challenge seed H(mu || w1), c, z, the three norms, the hints - and must leave
+\* through the logged exit; the accepted one must give the signature bytes
 JudgeSign(e) ==
-  LET sk == e.sk            \* the secret key of the signing object (its own keygen event checks it)
+  LET sk == e.sk
+      rho == SkRho(sk)
+      A == AHat(rho)
+      s1 == Force([i \in 1..LL |-> SkS1(sk, i - 1)], LL)
+      s2 == Force([i \in 1..KK |-> SkS2(sk, i - 1)], KK)
+      t0 == Force([i \in 1..KK |-> SkT0(sk, i - 1)], KK)
       mu == Mu(SkTr(sk), e.msg)
       rpp == RhoPP(SkKey(sk), mu)
-      s1 == [i \in 1..LL |-> SkS1(sk, i - 1)]
       nIt == Len(e.iters)
-      \* per iteration: z = y + c s1 for the iteration's challenge seed
-      ZOf(it) == LET c == Challenge(ChallengeStream(it.c))
-                 IN [i \in 1..LL |-> PolyAdd(Y(rpp, it.nonce - 1, i - 1), SparseMul(c, s1[i]))]
-      MaxZ(it) == LET z == ZOf(it) IN FoldLeft(LAMBDA acc, i : IF MaxAbs(z[i]) > acc THEN MaxAbs(z[i]) ELSE acc, 0, [i \in 1..LL |-> i])
-      last == e.iters[nIt]
-      zAcc == ZOf(last)
-      cAcc == Challenge(ChallengeStream(SigC(e.sig)))
-      hint == Decode(SigHint(e.sig))
-      rho == SkRho(sk)
-      yhat == [j \in 1..LL |-> NTT(Y(rpp, last.nonce - 1, j - 1))]
-      badPos == {p \in {e.positions[x] : x \in 1..Len(e.positions)} :
-                   LET i == p[1] kk == p[2]
-                       w == InvNTTAt(RowTimes(rho, yhat, i), kk)
-                       d == DecomposeDef(w)
-                       cs2 == SparseMul(cAcc, SkS2(sk, i))[kk + 1]
-                       ct0 == SparseMul(cAcc, SkT0(sk, i))[kk + 1]
-                       hb == MakeHintDef(d.lo - cs2 + ct0, d.hi)
-                   IN hb # (IF kk \in hint.h[i + 1] THEN 1 ELSE 0)}
+      its == Force([x \in 1..nIt |-> SignIteration(A, s1, s2, t0, mu, rpp, x - 1)], nIt)
+      last == its[nIt]
+      sigSpec == last.ct \o Concat([i \in 1..LL |-> PackPoly("z", last.z[i])]) \o Encode(last.hint)
   IN When(\E x \in 1..nIt : e.iters[x].nonce # x, "iteration numbering")
-     \o When(\E x \in 1..nIt : (e.iters[x].exit = 1) # (MaxZ(e.iters[x]) >= GAMMA1 - BETA) /\ e.iters[x].exit \in {0, 1},
-             "an iteration was (not) rejected for z although the specification's z norm says otherwise")
-     \o When(\E x \in 1..nIt : e.iters[x].exit # 1 /\ MaxZ(e.iters[x]) >= GAMMA1 - BETA, "an iteration passed the z test with z out of range")
-     \o When(SigC(e.sig) # last.c, "challenge seed in the signature is not the accepted iteration's")
-     \o When(\E i \in 0..(LL - 1) : SigZ(e.sig, i) # zAcc[i + 1], "z in the signature is not y + c s1 of the accepted iteration")
-     \o When(~hint.ok, "hint section of the signature is not canonical")
-     \o When(badPos # {}, "hint bit differs from MakeHint(w0 - c s2 + c t0, w1) with w = A y at a checked coefficient")
+     \o When(\E x \in 1..nIt : its[x].exit # e.iters[x].exit,
+             "an iteration left the signing loop through another exit than Sign_spec does (exact norms and hint count recomputed from sk and message)")
+     \o When(\E x \in 1..nIt : its[x].ct # e.iters[x].c, "challenge seed of an iteration is not H(mu || pack(HighBits(A y)))")
+     \o When(last.exit = 0 /\ e.sig # sigSpec, "signature is not Sign_spec(sk, message): c~ || pack20(z) || hints")
      \o When(Len(e.sig) # 4595, "signature size")
 
 \* a run of the signing loop given by its exact scalars: every iteration must leave through the exit
